@@ -67,9 +67,12 @@ pub enum ContentClass {
     CompressibleHeadRandomTail,
     RandomHeadCompressibleTail,
     LowEntropy,
+    /// one incompressible 512-byte block repeated: every 512-byte sector is stored raw and all sectors (and so
+    /// their checksums) are identical
+    RepeatedRandomBlock,
 }
 
-pub const ALL_CLASSES: [ContentClass; 8] = [
+pub const ALL_CLASSES: [ContentClass; 9] = [
     ContentClass::Random,
     ContentClass::Constant,
     ContentClass::Period,
@@ -78,6 +81,7 @@ pub const ALL_CLASSES: [ContentClass; 8] = [
     ContentClass::CompressibleHeadRandomTail,
     ContentClass::RandomHeadCompressibleTail,
     ContentClass::LowEntropy,
+    ContentClass::RepeatedRandomBlock,
 ];
 
 /// Length relative to the sector size S: `halves * S/2 + delta` (never negative)
@@ -349,6 +353,13 @@ pub fn materialize(class: ContentClass, len: usize, seed: u32) -> Vec<u8> {
         ContentClass::LowEntropy => {
             for b in out.iter_mut() {
                 *b = b"abc "[(xorshift(&mut st) & 3) as usize];
+            }
+        }
+        ContentClass::RepeatedRandomBlock => {
+            let mut pat = vec![0u8; 512];
+            fill_random(&mut pat, &mut st);
+            for (i, b) in out.iter_mut().enumerate() {
+                *b = pat[i % 512];
             }
         }
     }
